@@ -84,6 +84,11 @@ void vrt_set_snapshot (void (*fn) (char *buf, size_t n));
 void vrt_region_name (const void *p, char *buf, size_t n);
 /* called for every successful atomic write (store or CAS) of the code under test: (addr, old, new, file, line) */
 void vrt_set_write_monitor (void (*fn) (volatile void *, uint32_t, uint32_t, const char *, int));
+/* observer mode (C16): between vrt_observer_begin and vrt_observer_end every instrumented PLAIN write by the calling thread to an
+   address that is neither inside [allowed, allowed+n) nor on the thread's own stack ends the run with a violation `C16`.
+   (Atomic writes are seen by the write monitor.)  Off by default; nothing changes for threads that never call it. */
+void vrt_observer_begin (const void *allowed, size_t n);
+void vrt_observer_end (void);
 #ifdef __cplusplus
 }
 #endif
